@@ -393,6 +393,10 @@ def check_window_selection(c, repo, R, maxP=5, maxW=6, maxL=4, maxD=6):
             if len(win) < min(W, Pn):
                 fail('window-cover', fname, 'window %r is shorter than the last min(W, pending)=%d characters: an occurrence '
                      'inside the search window is not searched' % (win, min(W, Pn)), sc)
+            if len(win) > W:
+                fail('window-exact', fname, 'window %r is longer than the search window W=%d: the searcher restricts the start position itself, but '
+                     'anchors, word boundaries and look-behind then see text outside the window, so the outcome differs from searching '
+                     'the last W characters (and from other chunkings of the same stream)' % (win, W), sc)
         else:
             if fname == 'existing_data' or not L:
                 if len(win) != Pn:
@@ -437,9 +441,9 @@ def check_window_selection(c, repo, R, maxP=5, maxW=6, maxL=4, maxD=6):
                             run_one('new_data', P, b, W, L, d)
     R.extra['lenabs_scenarios'] = scen
     R.extra['lenabs_box'] = 'pending 0..%d, buffer 0..pending, W in None,1..%d, look-back in None,0..%d, new data 0..%d' % (maxP, maxW, maxL, maxD)
-    kinds = [('existing_data', k) for k in ('broken', 'search-count', 'args', 'window-end', 'w-forward', 'window-cover', 'window-all',
+    kinds = [('existing_data', k) for k in ('broken', 'search-count', 'args', 'window-end', 'w-forward', 'window-cover', 'window-exact', 'window-all',
                                             'fresh-all', 'pending-kept', 'buffer-suffix', 'buffer-enough', 'position')] + \
-            [('new_data', k) for k in ('broken', 'search-count', 'args', 'window-end', 'w-forward', 'window-cover', 'window-all',
+            [('new_data', k) for k in ('broken', 'search-count', 'args', 'window-end', 'w-forward', 'window-cover', 'window-exact', 'window-all',
                                        'lookback-cover', 'fresh-new', 'pending-kept', 'buffer-suffix', 'buffer-enough', 'position')]
     for fname, k in kinds:
         f = funcs[fname]
